@@ -4,6 +4,7 @@ package harness
 
 import (
 	"bytes"
+	"encoding/json"
 	"fmt"
 	"math/big"
 	"sort"
@@ -247,6 +248,44 @@ func (w *World) CompareStakes(s *Sim, a *AppState, prop string) {
 	if r, perr := s.Query("stakes/total_power", nil, 0); perr == nil && r.Code == 0 {
 		if got, err := strconv.ParseInt(string(r.Value), 10, 64); err != nil || got != sum {
 			w.fail(prop, "stakes/total_power answers %s, sum of bonded stakes is %d", r.Value, sum)
+		}
+	}
+	// the per-owner view: what the stakes query lists for an owner is what is bonded in his name, wherever
+	owners := map[string]map[string]int64{}
+	for _, d := range w.Delegs {
+		for _, x := range d.Stakes {
+			k := ak(x.Owner)
+			if owners[k] == nil {
+				owners[k] = map[string]int64{}
+			}
+			owners[k][hx(x.TxHash)+"/"+hx(x.To)] = x.Power
+		}
+	}
+	for _, k := range sortedKeys(w.Delegs) { // every delegatee is asked too, with or without stakes of his own elsewhere
+		if owners[k] == nil {
+			owners[k] = map[string]int64{}
+		}
+	}
+	for _, k := range sortedKeys(owners) {
+		r, perr := s.Query("stakes", unhx(k), 0)
+		if perr != nil {
+			continue
+		}
+		var q []*qStake
+		if r.Code != 0 || (len(r.Value) > 0 && json.Unmarshal(r.Value, &q) != nil) {
+			if len(owners[k]) > 0 {
+				w.fail(prop, "stakes query for owner %s failed (code %d), %d stakes are bonded in his name", k[:8], r.Code, len(owners[k]))
+			}
+			continue
+		}
+		if len(q) != len(owners[k]) {
+			w.fail(prop, "stakes query for owner %s lists %d stakes, %d are bonded in his name", k[:8], len(q), len(owners[k]))
+			continue
+		}
+		for _, x := range q {
+			if p, ok := owners[k][strings.ToLower(x.TxHash)+"/"+strings.ToLower(x.To)]; !ok || p != int64(x.Power) {
+				w.fail(prop, "stakes query for owner %s lists stake %s (power %d) that is not bonded like that", k[:8], trunc(x.TxHash, 12), x.Power)
+			}
 		}
 	}
 }
